@@ -3,6 +3,7 @@ package main
 import (
 	"fmt"
 	"go/token"
+	"go/types"
 	"sort"
 	"strings"
 
@@ -508,6 +509,7 @@ func runC19(c *Check) {
 	ruleWipeAfterLastUse(c, p, keyFns)
 	c.MinInstances("C19-R1", 1)
 	c.MinInstances("C19-R2", 1)
+	ruleKeyFileIndexing(c, p, "C19-R11")
 	c.MinInstances("C19-R3", 3)
 	c.MinInstances("C19-R4", 2)
 }
@@ -618,4 +620,180 @@ func aliasesBuffer(p *Prog, t, buf *Term, depth int) bool {
 		}
 	}
 	return false
+}
+
+// ruleKeyFileIndexing (C19-R11): "a wrong passphrase or a corrupted key file never yields a panic".
+// Every element access and every re-slicing in the key-file package whose operand is a slice (or
+// string) of run-time length is in bounds by a fact established on every path to it: the index is
+// compared with the operand's length, is a remainder by that (non-zero) length, or is a constant
+// below a tested length. Operands of constant length (arrays, make with a constant) are exempt.
+func ruleKeyFileIndexing(c *Check, p *Prog, rule string) {
+	c.Doc(rule, "GA: in the key-file code every index into and every re-slice of a slice of run-time length (the passphrase, fields decoded from the file) is covered by a length test on every path to it — an empty passphrase or a truncated field makes the call fail, it does not panic.")
+	constLen := func(v ssa.Value) (int64, bool) {
+		for i := 0; i < 4; i++ {
+			switch x := v.(type) {
+			case *ssa.Slice:
+				if pt, ok := x.X.Type().Underlying().(*types.Pointer); ok {
+					if at, ok := pt.Elem().Underlying().(*types.Array); ok && x.High == nil {
+						return at.Len(), true
+					}
+				}
+				if x.Low == nil && x.High == nil {
+					v = x.X
+					continue
+				}
+				return 0, false
+			case *ssa.MakeSlice:
+				if k, ok := x.Len.(*ssa.Const); ok {
+					return k.Int64(), true
+				}
+				return 0, false
+			case *ssa.ChangeType:
+				v = x.X
+				continue
+			}
+			break
+		}
+		return 0, false
+	}
+	intConst := func(v ssa.Value) (int64, bool) {
+		if k, ok := v.(*ssa.Const); ok && k.Value != nil {
+			return k.Int64(), true
+		}
+		return 0, false
+	}
+	n := 0
+	ord := map[string]int{}
+	for _, fn := range p.Funcs {
+		pk := fnPkg(fn)
+		if pk == nil || pk.Pkg.Path() != filePkg || fn.Blocks == nil || fn.Synthetic != "" {
+			continue
+		}
+		var g *Graph
+		for _, b := range fn.Blocks {
+			for _, in := range b.Instrs {
+				var base, idx ssa.Value
+				kind := ""
+				switch x := in.(type) {
+				case *ssa.IndexAddr:
+					if _, isSlice := x.X.Type().Underlying().(*types.Slice); !isSlice {
+						continue // arrays: the compiler rejects constant indices out of range; none is variable here
+					}
+					base, idx, kind = x.X, x.Index, "index"
+				case *ssa.Index:
+					if bt, ok := x.X.Type().Underlying().(*types.Basic); !ok || bt.Info()&types.IsString == 0 {
+						continue
+					}
+					base, idx, kind = x.X, x.Index, "index"
+				case *ssa.Slice:
+					if _, isSlice := x.X.Type().Underlying().(*types.Slice); !isSlice {
+						continue
+					}
+					if x.High == nil && x.Low == nil {
+						continue
+					}
+					base, idx, kind = x.X, x.High, "slice-to"
+					if idx == nil {
+						idx, kind = x.Low, "slice-from"
+					}
+				default:
+					continue
+				}
+				n++
+				ctx := &Ctx{Fn: fn}
+				bt, it := TermOf(base, ctx), TermOf(idx, ctx)
+				ord[fnName(fn)+kind+bt.String()]++
+				inst := fmt.Sprintf("%s ⟂ %s %s #%d", fnShort(fn), kind, trunc(bt.String(), 40), ord[fnName(fn)+kind+bt.String()])
+				pos := p.InstrPos(in)
+				// constant-length operand and constant index
+				if l, ok := constLen(base); ok {
+					if k, ok := intConst(idx); ok && (k < l || (kind != "index" && k <= l)) {
+						c.OK(rule, inst, fnName(fn), pos, fmt.Sprintf("constant index %d into a buffer of constant length %d", k, l), true)
+						continue
+					}
+				}
+				if g == nil {
+					g = BuildECFG(p, fn, ExpandOpts{MaxDepth: 0})
+					c.NoteGraph(g)
+				}
+				var nd *Node
+				for _, cand := range g.Nodes {
+					if cand.Kind == NInstr && cand.In == in {
+						nd = cand
+						break
+					}
+				}
+				if nd == nil {
+					c.Unk(rule, inst, fnName(fn), pos, "instruction not found in the function's graph")
+					continue
+				}
+				lenS := "len(" + bt.String() + ")"
+				lenAlt := ""
+				if mk, ok := base.(*ssa.MakeSlice); ok {
+					lenAlt = TermOf(mk.Len, ctx).unconv().String() // the length the buffer was made with
+				}
+				facts := g.NecessaryEdges(nodeSet([]*Node{nd}))
+				nonZero, idxBelow, lenAbove := false, false, int64(-1)
+				for _, f := range facts {
+					t := f.Cond
+					if t.Op != "bin" || len(t.Args) != 2 {
+						continue
+					}
+					a, b := t.Args[0].unconv().String(), t.Args[1].unconv().String()
+					op := t.Name
+					if !f.Pol {
+						op = map[string]string{"<": ">=", "<=": ">", ">": "<=", ">=": "<", "==": "!=", "!=": "=="}[op]
+					}
+					if lenAlt != "" && a == lenAlt {
+						a = lenS
+					} else if lenAlt != "" && b == lenAlt {
+						b = lenS
+					}
+					if b == lenS { // normalise to len on the left
+						a, b = b, a
+						op = map[string]string{"<": ">", "<=": ">=", ">": "<", ">=": "<=", "==": "==", "!=": "!="}[op]
+					}
+					if a != lenS {
+						continue
+					}
+					var k int64
+					isK := false
+					if _, err := fmt.Sscan(b, &k); err == nil {
+						isK = true
+					}
+					switch {
+					case isK && op == ">" && k+1 > lenAbove:
+						lenAbove = k + 1 // len >= k+1
+					case isK && op == ">=" && k > lenAbove:
+						lenAbove = k
+					case isK && op == "!=" && k == 0 && lenAbove < 1:
+						lenAbove = 1
+					case !isK && b == it.unconv().String() && (op == ">" || (op == ">=" && kind != "index")):
+						idxBelow = true
+					}
+				}
+				nonZero = lenAbove >= 1
+				iu := it.unconv()
+				switch {
+				case idxBelow:
+					c.OK(rule, inst, fnName(fn), pos, "the index is compared with the operand's length on every path", true)
+				case iu.Op == "bin" && iu.Name == "%" && iu.Args[1].unconv().String() == lenS && nonZero:
+					c.OK(rule, inst, fnName(fn), pos, "remainder by the operand's length, which is tested non-zero on every path", true)
+				case iu.Op == "const" && func() bool { k, ok := intConst(idx); return ok && (k < lenAbove || (kind != "index" && k <= lenAbove)) }():
+					c.OK(rule, inst, fnName(fn), pos, fmt.Sprintf("constant index below the tested length (len >= %d)", lenAbove), true)
+				case iu.Op == "bin" && iu.Name == "-" && iu.Args[0].unconv().String() == lenS && iu.Args[1].unconv().Op == "const" && func() bool {
+					var k int64
+					_, err := fmt.Sscan(iu.Args[1].unconv().Name, &k)
+					return err == nil && k >= 1 && lenAbove >= k
+				}():
+					c.OK(rule, inst, fnName(fn), pos, fmt.Sprintf("len-k with the length tested (len >= %d)", lenAbove), true)
+				default:
+					c.Bad(rule, inst, fnName(fn), pos, "an element of a slice of run-time length is accessed without a length test on every path to it: with an empty passphrase or a truncated field of the key file this call panics (index out of range) instead of returning an error", nil)
+				}
+			}
+		}
+	}
+	if n < 3 {
+		c.Unk(rule, "anchor-count", "", "", fmt.Sprintf("anchor lost: only %d element accesses in the key-file package", n))
+	}
 }
